@@ -557,6 +557,8 @@ DESCRIPTIONS = [
     "plain description", 'with "double quotes"', "back\\slash and \\n literal", "unicode żółć 日本 😀",
     "multi\nline\ndescription", "  leading and trailing  ", "triple \"\"\" inside", "tab\there", "# hash", "'single'",
     "ends with quote\"", "",
+    "markdown hard break  \nnext line", "trailing tab\t\nthen text", "first paragraph\n\nsecond paragraph after a blank line",
+    "a single line that is longer than seventy characters so that the printer switches to a block string  x",
 ]
 
 
